@@ -442,6 +442,7 @@ def main():
         return [(v[i], v[i + 1]) for i in range(0, len(v), 2)]
 
     enc_reqs, enc_real, enc_idx = [], [], []
+    raised_on_valid = []
     spec_reqs, spec_idx = [], []
     reals = []
     for i, c in enumerate(cases):
@@ -471,8 +472,9 @@ def main():
         # on an error the encoder calls made before it are still valid oracle answers; missing ones are never reached
         line = encode_line(arch, w, b, bc, c["offsets"], qs, True, subs)
         if res["err"]:
-            # give the model enough oracle entries: it must fail before needing more
             real_s = res["err"]
+            if not c["mal"]:
+                raised_on_valid.append(i)
         else:
             t = res["wt"]
             rs, per = real_encode_str(t, res["calls"], True)
@@ -517,6 +519,11 @@ def main():
                        (c["kind"], tuple(c["wvals"].shape), c["acc"].value, c["shape"][1], c["shape"][0], c["dil"], c["bd"], c["offsets"]))
         return d
 
+    for i in raised_on_valid[:3]:
+        c = cases[i]
+        ck.violation(f"encode_weight_and_scale_tensor raises {reals[i]['err']} on a well-formed request ({c['kind']}, {c['acc'].value}, depth offsets "
+                     f"{c['offsets']}, block depth {c['bd']}): no tensor is assembled", describe(c))
+
     def classify(fail_str):
         """all failures sit at core 1 of a ragged intermediate slice of a 2-core request, and only the scale clauses fail"""
         fs = fail_str.split()[1:]
@@ -553,7 +560,7 @@ def main():
         ck.violation(f"correspondence prepareScales vs _prepare_scale_and_bias broken on {len(prep_dis)} inputs",
                      {"correspondence": "wl_prep", "request": prep_reqs[i][:1500], "model": prep_outs[i][:600], "implementation": prep_real[i][:600],
                       "case": describe(cases[i])}, found_input=False)
-    if enc_dis and not spec_fail:
+    if enc_dis and not spec_fail and not raised_on_valid:
         i = min(enc_dis, key=lambda j: len(enc_reqs[j] or ""))
         ck.violation(f"correspondence encodeTensor vs encode_weight_and_scale_tensor broken on {len(enc_dis)} inputs",
                      {"correspondence": "wl_encode", "request": (enc_reqs[i] or "")[:3000], "model": str(enc_out[i])[:1500],
@@ -563,6 +570,7 @@ def main():
     # ------------------------------------------------------------------------------------------
     # 3. create_weights / create_dma_op on the real tensors
     addr_reqs, addr_real, addr_spec, addr_meta = [], [], [], []
+    addr_match, addr_match_meta = [], []
 
     def fmt_ranges(rs):
         return " ".join("%d %d %d %d %d %d" % r[:6] for r in rs)
@@ -613,6 +621,11 @@ def main():
             d, r2 = None, "dma err:unbound"
         addr_real.append(r1 + " " + r2)
         addr_reqs.append(f"wl_addr {arch.ncores} {len(rs)} {fmt_ranges(rs)} {src_addr} {int(buffered)} {buf_addr} 0 0 0 {depth}")
+        addr_match.append("wl_addrmatch %d %d %d %d %d %s %d %s %d %s %d %s" % (
+            src_addr, int(buffered), buf_addr, depth, len(rs), fmt_ranges(rs),
+            len(ws), " ".join(f"{a.address} {a.length}" for a in ws), len(bs), " ".join(f"{a.address} {a.length}" for a in bs),
+            int(d is not None), "%d %d %d %d" % ((d.src.address, d.src.length, d.dest.address, d.dest.length) if d is not None else (0, 0, 0, 0))))
+        addr_match_meta.append((i, si, depth, buffered))
         # Spec: the ranges handed to the command stream generator lie inside the tensor they address
         if buffered:
             base, size = buf_addr, buf_size
@@ -630,6 +643,13 @@ def main():
     addr_dis = [j for j in range(len(addr_reqs)) if addr_out[j] != addr_real[j]]
     aspec_out = ck.model(addr_spec)
     aspec_fail = [j for j, o in enumerate(aspec_out) if o != "1"]
+    amatch_out = ck.model(addr_match)
+    amatch_fail = [j for j, o in enumerate(amatch_out) if o != "ok"]
+    for j in amatch_fail[:3]:
+        i, si, depth, buffered = addr_match_meta[j]
+        ck.violation(f"address ranges from create_weights / create_dma_op are not the recorded sections of the slice: {amatch_out[j]} "
+                     f"(slice {si}, start channel {depth}, buffered={buffered}, {built[i][0].accelerator_config.value})",
+                     dict(describe(cases[i]), request=addr_match[j][:2000], real=addr_real[j]))
     for j in aspec_fail[:3]:
         i, si, depth, buffered = addr_meta[j]
         c = cases[i]
@@ -638,7 +658,7 @@ def main():
         ck.violation(f"address range outside its tensor / unaligned: {addr_spec[j][:200]} (slice {si}, start channel {depth}, buffered={buffered})",
                      dict(describe(c), addr_request=addr_spec[j], real=addr_real[min(j, len(addr_real) - 1)]),
                      key=KEY_OVERSHOOT if two_core_ragged else None)
-    if addr_dis and not aspec_fail:
+    if addr_dis and not aspec_fail and not amatch_fail:
         j = addr_dis[0]
         ck.violation(f"correspondence createWeights/createDmaOp vs high_level_command_to_npu_op broken on {len(addr_dis)} inputs",
                      {"correspondence": "wl_addr", "request": addr_reqs[j][:1500], "model": addr_out[j], "implementation": addr_real[j]}, found_input=False)
@@ -1062,7 +1082,7 @@ def main():
     nontrivial = len({(i, tuple(c["offsets"]), c["acc"]) for i, c in enumerate(cases) if len(c["offsets"]) > 2 or arch_of(c["acc"]).ncores == 2}) \
         + ck.counters.get("cache_hit", 0) + ck.counters.get("cache_hit-weights", 0) + ck.counters.get("pipe_multislice", 0)
     ck.finish({
-        "evaluations": len(breqs) + len(rt_lines) + len(prep_reqs) + len(lines) + len(spec_reqs) + len(addr_reqs) + len(addr_spec) + len(seq_same_reqs)
+        "evaluations": len(breqs) + len(rt_lines) + len(prep_reqs) + len(lines) + len(spec_reqs) + len(addr_reqs) + len(addr_spec) + len(addr_match) + len(seq_same_reqs)
         + ck.counters.get("pipe_requests", 0) + ck.counters.get("pipe_buffered_ops", 0),
         "distinct_nontrivial": nontrivial,
         "rule": "case = one encode request (stub operator or scheduler-produced) or one request of a sequence against the compression cache; "
